@@ -164,6 +164,8 @@ structure Res where
   fails : C02.Fails := {}
   corrFails : C02.Fails := {}
   portCompared : Nat := 0
+  /-- cursor stacks of the port on which `stackLinked` failed -/
+  stackBad : Nat := 0
   /-- the port's cursor positioned on node `cacheNode` by `gotoDescendant` -/
   cacheNode : Nat := u32max
   cache : Cursor := default
@@ -244,7 +246,8 @@ def judgeLine (c : Ctx) (root : Tree) (rootId : Nat) (r : Res) (line : String) :
       if isCursorOp op then
         -- position the port's cursor on node k once per node
         let r := if r.cacheNode == k then r else
-          { r with cacheNode := k, cache := gotoDescendant c.lang k (Cursor.ofRoot root rootId) }
+          let cur := gotoDescendant c.lang k (Cursor.ofRoot root rootId)
+          { r with cacheNode := k, cache := cur, stackBad := r.stackBad + (if stackLinked cur.stack then 0 else 1) }
         let qs := if usesPrev op then quirkSets else [("none", Quirks.none)]
         let hit := qs.find? fun (_, q) => portAnswer c.lang q r.cache op args == some answer
         let r := { r with portCompared := r.portCompared + 1 }
